@@ -137,6 +137,14 @@ GRAPH_LINES = ["%include a.conf", "%include b.conf", "%include c.conf", "%includ
                "%import ZConfig.components.basic", "%import nosuchpackage", "%import os",
                "%import xml", "%import zcv.no.such", "%import", "%include",
                "%define x a.conf", "%include $x", "%include ${nope}"]
+# include arguments in URL syntax that cannot be opened (no network is touched: unknown schemes,
+# malformed authority, data: and package: forms)
+GRAPH_URL_LINES = ["%include etc:local.conf", "%include mailto:x", "%include http:///x", "%include data:x",
+                   "%include http://[::1", "%include //[x/y", "%include package:nosuchpkg:x",
+                   "%include package:ZConfig", "%include package::x", "%include package:os:x",
+                   "%include package:ZConfig:nosuch.xml", "%include file://nohost/x", "%include ftp://",
+                   "%include a.conf#frag", "%include file:b.conf", "%include FILE:c.conf",
+                   "%define u http://[", "%include $u"]
 
 
 def gen_graph(rng, sm):
@@ -145,7 +153,8 @@ def gen_graph(rng, sm):
         body = gen.gen_text(rng, sm, rng.choice([0, 0, 1])).split("\n")
         body = [l for l in body if l][:rng.choice([0, 2, 6])]
         for _ in range(rng.choice([0, 1, 1, 2])):
-            body.insert(rng.randrange(len(body) + 1), rng.choice(GRAPH_LINES))
+            body.insert(rng.randrange(len(body) + 1),
+                        rng.choice(GRAPH_URL_LINES) if rng.random() < 0.2 else rng.choice(GRAPH_LINES))
         files[name] = "".join(l + "\n" for l in body)
     return files
 
